@@ -276,6 +276,66 @@ func c19ReadBody(x *engine.X) {
 	x.Outcome(fmt.Sprintf("read/%d items/%d segs", len(items), min(len(segs), 4)))
 }
 
+// c19AllSizes: one item of EVERY size in 0..1100 and around the capacity steps the read buffer grows through,
+// delivered whole or with one cut inside the payload, read back through ReadNext / AsyncReadNext.
+func c19AllSizesList() []int {
+	var out []int
+	for n := 0; n <= 1100; n++ {
+		out = append(out, n)
+	}
+	for _, c := range []int{2048, 4096, 8192, 16384, 65536} {
+		for d := -6; d <= 6; d++ {
+			out = append(out, c+d)
+		}
+	}
+	return out
+}
+
+func c19AllSizesBody(x *engine.X) {
+	sizes := c19AllSizesList()
+	n := sizes[x.Pick(len(sizes), "payload size")]
+	async := x.Pick(2, "ReadNext/AsyncReadNext") == 1
+	cut := x.Pick(3, "whole / cut after the length prefix / cut in the payload")
+	first := payloadBytes(7, 3)
+	item := payloadBytes(9, n)
+	wire := append(refEncode(first), refEncode(item)...)
+	vs := vstream.New()
+	switch {
+	case cut == 1:
+		vs.Feed(wire[:len(refEncode(first))+4])
+		vs.Feed(wire[len(refEncode(first))+4:])
+	case cut == 2 && n > 1:
+		k := len(refEncode(first)) + 4 + n/2
+		vs.Feed(wire[:k])
+		vs.Feed(wire[k:])
+	default:
+		vs.Feed(wire)
+	}
+	x.Note("all-sizes n=%d async=%v cut=%d", n, async, cut)
+	x.Nontrivial()
+	src, dst := sonic.NewByteBuffer(), sonic.NewByteBuffer()
+	cc, _ := sonic.NewCodecConn[[]byte, []byte](vs, frame.NewCodec(src), src, dst)
+	for i, want := range [][]byte{first, item} {
+		var got []byte
+		var err error
+		calls := 1
+		x.Guard("codecconn.read/panic", func() {
+			if async {
+				calls = 0
+				cc.AsyncReadNext(func(e error, b []byte) { calls++; err = e; got = append([]byte{}, b...) })
+			} else {
+				var b []byte
+				b, err = cc.ReadNext()
+				got = append([]byte{}, b...)
+			}
+		})
+		if calls != 1 || err != nil || string(got) != string(want) {
+			x.Fail("codecconn.read/item-of-some-size", "item %d of %d bytes: callbacks=%d err=%v, %d bytes returned (equal=%v) although the whole item was delivered", i, len(want), calls, err, len(got), string(got) == string(want))
+		}
+	}
+	x.Outcome("all-sizes")
+}
+
 func c19HostileInputs() [][]byte {
 	alpha := []byte{0x00, 0x01, 0x3F, 0x40, 0x7F, 0x80, 0xFF}
 	var out [][]byte
@@ -372,6 +432,8 @@ func c19DFS(tier, which string) *engine.DFS {
 		return &engine.DFS{Name: "write@" + tier, Body: c19WriteBody, Threads: 16, ShardDepth: 3, MaxDeviations: 2}
 	case "read":
 		return &engine.DFS{Name: "read@" + tier, Body: c19ReadBody, Threads: 16, ShardDepth: 3, MaxDeviations: dev, MaxPoints: 700}
+	case "allsizes":
+		return &engine.DFS{Name: "allsizes@" + tier, Body: c19AllSizesBody, Threads: 16, ShardDepth: 1, MaxDeviations: 0}
 	default:
 		return &engine.DFS{Name: "hostile@" + tier, Body: c19HostileBody(c19HostileInputs()), Threads: 16, ShardDepth: 1, MaxDeviations: 6}
 	}
@@ -380,7 +442,7 @@ func c19DFS(tier, which string) *engine.DFS {
 func C19(tier string) *engine.Report {
 	rep := engine.NewReport("C19", tier, "exploration")
 	var tot engine.DFSTotals
-	for _, w := range []string{"write", "read", "hostile"} {
+	for _, w := range []string{"write", "read", "allsizes", "hostile"} {
 		tot.Add(c19DFS(tier, w).Run(), rep)
 	}
 	tot.Fill(rep, "payload sequences (<=3 items over 6 sizes) written through a real CodecConn+frame.Codec (blocking/async, partial acceptance, deferred completion) and compared byte-for-byte with the reference encoding; "+
